@@ -164,3 +164,25 @@ Theorem C09_listing_model :
     h_roots h' = h_roots h ∧ h_account h' = h_account h ∧ committed_ok h'.
 Proof. exact listing_model. Qed.
 Print Assumptions C09_listing_model.
+
+(** Symbolic Merkle range proofs (one digest per maximal subtree disjoint from the range, as
+    rhp2.BuildSectorRangeProof): whatever roots and proof a host returns, if they rebuild the
+    committed root for the range [off, off+len) of a contract of |roots| sectors, the
+    returned roots are exactly the stored range. *)
+Theorem C09_listing_sound :
+  ∀ (roots : list N) (off len : nat) (rs : list N) (proof : list digest),
+    verify_range (mroot roots) (length roots) off len rs proof = true →
+    rs = take len (drop off roots).
+Proof. exact listing_sound. Qed.
+Print Assumptions C09_listing_sound.
+
+(** … and the honest host's answer does verify against the committed revision, for every
+    legal range of every contract: the roots can be listed with verifying proofs. *)
+Theorem C09_listing_verifies :
+  ∀ (h : host) (off len : nat) (lk pr sg : bool) (u : usage) (h' : host) (o : out),
+    committed_ok h → do_roots h off len lk pr sg u = Some (h', o) →
+    ∃ rs, o = ORootsResp rs ∧
+      verify_range (r_root (h_rev h)) (N.to_nat (r_size (h_rev h) / sector_size)) off len rs
+        (build_range_proof (length (h_roots h)) (h_roots h) off len) = true.
+Proof. exact listing_verifies. Qed.
+Print Assumptions C09_listing_verifies.
